@@ -12,10 +12,11 @@
       BrokerQuery   event-history query
       BrokerHistInit configured stores of the initial broker, distinct stored ids
       BrokerDisclose publisher disclosure, per-recipient details
+      BrokerLeave   session end announces on_unsubscribe / on_delete per subscription
     and states the table-level ([In]) reading of the invariant. *)
 From Nexus Require Export Router.Realm Router.AssocLemmas Router.BrokerWf Router.BrokerPres Router.BrokerPublish
      Router.BrokerSub Router.BrokerFilter Router.BrokerRun Router.BrokerHist Router.BrokerQuery
-     Router.BrokerHistInit Router.BrokerDisclose.
+     Router.BrokerHistInit Router.BrokerDisclose Router.BrokerLeave.
 From Coq Require Import Lia ZifyN ZifyBool.
 
 (** The five tables + history table as ONE relation, read entry by entry. *)
